@@ -339,6 +339,18 @@ func (w *world) nextBlock(dtSeconds int64) {
 	h := w.ctx.BlockHeight() + 1
 	t := w.ctx.BlockTime().Add(time.Duration(dtSeconds) * time.Second)
 	w.ctx = w.ctx.WithBlockHeight(h).WithBlockTime(t)
+	// the oracles keep the feeds alive: the first oracle of every market re-posts the current price with a
+	// far expiry (a real MsgPostPrice), so that long histories do not end with every price expired
+	if dtSeconds > 0 {
+		pk := w.tApp.GetPriceFeedKeeper()
+		for _, m := range pk.GetMarkets(w.ctx) {
+			cp, err := pk.GetCurrentPrice(w.ctx, m.MarketID)
+			if err != nil || len(m.Oracles) == 0 {
+				continue
+			}
+			w.deliver(w.ctx, pricefeedtypes.NewMsgPostPrice(m.Oracles[0].String(), m.MarketID, cp.Price, t.Add(1_000_000*time.Second)))
+		}
+	}
 	cls, err := kapp.Exec(w.ctx, func(cc sdk.Context) error {
 		issuance.BeginBlocker(cc, w.tApp.GetIssuanceKeeper())
 		bep3.BeginBlocker(cc, w.tApp.GetBep3Keeper())
